@@ -273,6 +273,36 @@ def modesOfNat (n : Nat) : Modes :=
 /-- The private mode numbers that matter, plus some that must not. -/
 def modeNumbers : List Int := [1, 1000, 1002, 1003, 1006, 1007, 1049, 2004, 2, 7, 25, 12, 1004, 0]
 
+/-! ## The numeric keypad (xterm ctlseqs, "PC-Style Function Keys" / VT220 keypad)
+
+A host whose terminal speaks the kitty keyboard protocol receives the keypad keys as key codes of their own
+(`KeyKeyPad0` … `KeyKeyPadBegin`).  What xterm sends for them depends on the child's keypad mode: in numeric mode
+(DECKPNM, the default) the character printed on the key (Enter: CR); in application mode (DECKPAM) `SS3` + a final
+byte.  The navigation legends of the keypad send what the corresponding editing / cursor key sends. -/
+
+/-- (keypad key, character sent in numeric mode, `SS3` final sent in application mode). -/
+def keypadChars : List (Int × Int × Int) :=
+  [(KeyKeyPad0, 48, 112), (KeyKeyPad1, 49, 113), (KeyKeyPad2, 50, 114), (KeyKeyPad3, 51, 115), (KeyKeyPad4, 52, 116),
+   (KeyKeyPad5, 53, 117), (KeyKeyPad6, 54, 118), (KeyKeyPad7, 55, 119), (KeyKeyPad8, 56, 120), (KeyKeyPad9, 57, 121),
+   (KeyKeyPadDecimal, 46, 110), (KeyKeyPadDivide, 47, 111), (KeyKeyPadMultiply, 42, 106), (KeyKeyPadSubtract, 45, 109),
+   (KeyKeyPadAdd, 43, 107), (KeyKeyPadEnter, 13, 77), (KeyKeyPadEqual, 61, 88), (KeyKeyPadSeparator, 44, 108)]
+
+/-- (keypad navigation key, the editing / cursor key it doubles). -/
+def keypadNav : List (Int × Int) :=
+  [(KeyKeyPadLeft, KeyLeft), (KeyKeyPadRight, KeyRight), (KeyKeyPadUp, KeyUp), (KeyKeyPadDown, KeyDown),
+   (KeyKeyPadPageUp, KeyPgUp), (KeyKeyPadPageDown, KeyPgDown), (KeyKeyPadHome, KeyHome), (KeyKeyPadEnd, KeyEnd),
+   (KeyKeyPadInsert, KeyInsert), (KeyKeyPadDelete, KeyDelete)]
+
+/-- What is due for an unmodified keypad key without text, by the child's keypad and cursor-key modes
+    (`none`: not a keypad key this table speaks about — `KeyKeyPadBegin` is left out). -/
+def keypadDue (kc : Int) (deckpam decckm : Bool) : Option Str :=
+  match keypadChars.find? (·.1 = kc) with
+  | some (_, ch, fin) => some (if deckpam then [27, 79, fin] else [ch])
+  | none =>
+    match keypadNav.find? (·.1 = kc) with
+    | some (_, nav) => (xtermLegacy nav 0 0 decckm).map renderSeq
+    | none => none
+
 /-! ## Paste -/
 def pasteStartSeq : Seq := .csi [[200]] 126
 def pasteEndSeq : Seq := .csi [[201]] 126
